@@ -168,7 +168,8 @@ fn run_root<'tcx>(tcx: TyCtxt<'tcx>, did: rustc_span::def_id::DefId, cfg: Option
                 break;
             }
             Ok(Err(Stop::Unsupported(s))) => {
-                status = format!("unsupported: {}", s);
+                let at: Vec<String> = m.loc_stack.iter().rev().take(3).map(|(d, bb)| format!("{}:bb{}", tcx.def_path_str(*d), bb)).collect();
+                status = format!("unsupported: {} [at {}]", s, at.join(" <- "));
                 paths.push(format!("{{\"conds\":[{}],\"out\":\"unsupported\",\"events\":{}}}", conds.join(","), events_json(&m.events)));
                 break;
             }
